@@ -127,6 +127,8 @@ NON_JSON = ['', '{', 'NaN', '1e999', '-Infinity', '[1,]', 'nul', '"unterminated'
 def task(item):
     if item[0] == 'namecase':
         return rtbase.name_case_task(['decode'])
+    if item[0] == 'history':
+        return rtbase.history_task(task, item, TIER[0])
     pos, i = item
     u = rtbase.universe(TIER[0])
     t = u.ir_type(pos, i)
@@ -176,12 +178,16 @@ def run(tier, seed):
     docs = documents(u, u.ir_type(*it))
     r.sample({'position': it[0], 'shape': u.shapes[it[1]], 'documents': [[l, doc_key(d)[:120]] for l, d in docs[:10]], 'n_documents': len(docs)})
     r.run_tasks(task, items, budget=600, chunksize=4)
+    hist = rtbase.history_items('quick')
+    r.bounds['history_pairs'] = len(hist)
+    r.run_tasks(task, hist, budget=600, order_base=len(items), fresh=True)
     r.assumptions = ['unspecified zones (DESIGN appendix C): bool for numbers, integral floats for integers, non-base64 strings for Bytes, '
                      'explicit null for nullable union members, null / omission for struct-typed fields without required fields, keys starting '
                      'with .tag in strict struct decoding, extra keys next to non-struct members in lenient mode']
     r.finish('per shape and position: reference encodings of boundary values + compact forms, every single structural mutation '
              '(x2 in the thorough tier), all small documents of depth <= 2; strict and lenient; object entry for all, string entry for '
-             'the initial documents and non-JSON texts')
+             'the initial documents and non-JSON texts; history layer: for every ordered pair (A, B) of struct / union shapes, the documents of A '
+             'then those of B in a process forked from the pristine parent')
 
 
 def replay(rep):
@@ -191,6 +197,8 @@ def replay(rep):
     if shape not in u.shapes:
         return 2
     i = u.shapes.index(shape)
+    if rep['inputs'].get('history') in u.shapes:
+        task(('alias', u.shapes.index(rep['inputs']['history'])))
     doc = json.loads(rep['inputs']['document']) if rep['inputs'].get('entry', 'obj') == 'obj' else rep['inputs']['document']
     o, v = judge(u, u.ir_type(pos, i), u.validator(pos, i), doc, rep['inputs']['strict'], shape, pos, rep['inputs'].get('mutation', ''),
                  rep['inputs'].get('entry', 'obj'))
